@@ -205,7 +205,7 @@ def finish(ctx: Ctx, cmd: str) -> int:
             print(f"ANALYSIS-ERROR property={ctx.prop} {e}")
         if not unknown:
             return 2
-    if vacuous and not (unknown and ctx.analysis_errors):
+    if vacuous and not unknown:  # a violation found by a rule stands even if another rule went blind
         for s in vacuous:
             print(
                 f"ANALYSIS-ERROR property={ctx.prop} rule {s.rule} enumerated {s.instances} instances, fewer than the {s.min_instances} confirmed by hand: the rule no longer sees the code it is about"
